@@ -1,6 +1,625 @@
-//! C22 — not implemented yet.
+//! C22 — Joins follow SQL join semantics.
+//!
+//! Generator: two (`join2`) or three (`join3`) relations r, s, u that share 1–3
+//! key columns k1..k3 (types drawn from BIGINT/INTEGER/VARCHAR/DATE; optionally
+//! INTEGER on one side and BIGINT on the other) plus payload columns p (small
+//! BIGINT) and q (any type); key NULL density 0/20/40 %, tiny domains
+//! (duplicates on both sides), row counts from {0, 1, 2–5, 6–12, 25–40} per
+//! table so the left:right ratio crosses the planner's `left > 2×right`
+//! build-side flip in both directions. Statement: `SELECT <subset of visible
+//! columns> FROM r t1 <kind> JOIN s t2 ON <1..K equi-keys, either orientation>
+//! [AND residual over left / right / both sides] [WHERE p]` with kind ∈ {INNER,
+//! LEFT, RIGHT, FULL, LEFT SEMI, LEFT ANTI, CROSS, comma}; rarely an ON with no
+//! equi-key at all. Three relations: left-deep `(t1 ⋈ t2) ⋈ t3` or right-nested
+//! `t1 ⋈ (t2 ⋈ t3)`, the second ON referencing t3 and t1 or t2.
+//! Every case runs through: in-memory tables (random batch cuts); a tiny
+//! memory limit (spilled hash join); Parquet (random files / row groups /
+//! statistics → statistics-driven join reordering); Parquet with the
+//! streaming-scan gate forced (runtime join-key filters); and the *swapped*
+//! statement (inputs of an INNER/FULL/CROSS join exchanged, LEFT↔RIGHT) whose
+//! select list is the same, so the same reference answer applies (the
+//! metamorphic relation of DESIGN §5).
+//!
+//! Oracle: `refsql` nested-loop join, multiset comparison. An engine error is
+//! an allowed outcome (e.g. the spill path refuses non-inner joins).
 use super::Property;
+use crate::data::*;
+use crate::refsql::Db;
+use crate::runner::*;
+use crate::sqlast::*;
+use crate::sqlgen::*;
+use proptest::prelude::*;
+use serde::{Deserialize, Serialize};
+
+#[path = "c25_util.rs"]
+mod util;
+use util::*;
+
+#[derive(Clone, Debug, Serialize, Deserialize)]
+pub struct JoinCase {
+    pub sql_case: SqlCase,
+    pub cfgs: Vec<EngineCfg>,
+}
+
+const KEY_TYPES: [ColType; 5] = [ColType::Int, ColType::Int32, ColType::Str, ColType::Date, ColType::Int];
+const PAY_TYPES: [ColType; 6] = [ColType::Double, ColType::Str, ColType::Bool, ColType::Date, ColType::Int, ColType::Int32];
+const TNAMES: [&str; 3] = ["r", "s", "u"];
+
+#[derive(Clone, Debug)]
+struct TableSpec {
+    key_null_pct: u32,
+    q_ty: ColType,
+    size_class: usize,
+}
+
+fn size_range(class: usize) -> std::ops::RangeInclusive<usize> {
+    match class {
+        0 => 0..=0,
+        1 => 1..=1,
+        2 => 2..=5,
+        3 => 6..=12,
+        4 => 25..=40,
+        // above the 1000-probe-row gate of the parallel semi/anti probe
+        _ => 1001..=1060,
+    }
+}
+
+/// tables r, s[, u] sharing key columns k1..kK
+fn tables_strategy(ntables: usize) -> BoxedStrategy<Vec<Table>> {
+    let spec = (
+        proptest::sample::select(vec![0u32, 20, 40]),
+        proptest::sample::select(PAY_TYPES.to_vec()),
+        proptest::sample::select(vec![0usize, 1, 2, 2, 3, 3, 4, 4]),
+    )
+        .prop_map(|(key_null_pct, q_ty, size_class)| TableSpec { key_null_pct, q_ty, size_class });
+    (
+        proptest::collection::vec(proptest::sample::select(KEY_TYPES.to_vec()), 1..=3),
+        proptest::collection::vec(spec, ntables),
+        // mixed integer widths: table index whose integer keys take the other width
+        proptest::option::weighted(0.15, 0usize..ntables),
+        // rarely: a 1000+ row right table (2-relation statements only)
+        proptest::bool::weighted(if ntables == 2 { 0.05 } else { 0.0 }),
+    )
+        .prop_flat_map(move |(key_types, specs, mixed, big_right)| {
+            let mut tables = vec![];
+            for (ti, sp) in specs.iter().enumerate() {
+                let mut cols: Vec<Column> = vec![];
+                let mut vals: Vec<BoxedStrategy<Value>> = vec![];
+                for (ki, kt) in key_types.iter().enumerate() {
+                    let ty = match (mixed == Some(ti), kt) {
+                        (true, ColType::Int) => ColType::Int32,
+                        (true, ColType::Int32) => ColType::Int,
+                        _ => *kt,
+                    };
+                    cols.push(Column { name: format!("k{}", ki + 1), ty });
+                    vals.push(small_value(ty, sp.key_null_pct));
+                }
+                cols.push(Column { name: "p".into(), ty: ColType::Int });
+                vals.push(small_value(ColType::Int, 15));
+                cols.push(Column { name: "q".into(), ty: sp.q_ty });
+                vals.push(small_value(sp.q_ty, 20));
+                let name = TNAMES[ti].to_string();
+                tables.push(proptest::collection::vec(vals, size_range(if big_right && ti == 1 { 5 } else { sp.size_class })).prop_map(move |rows| Table { name: name.clone(), cols: cols.clone(), rows }));
+            }
+            tables
+        })
+        .boxed()
+}
+
+fn lit(t: &mut Tape, ty: ColType) -> Expr {
+    Expr::Lit(match ty {
+        ColType::Int | ColType::Int32 => Value::Int(t.pick(5) as i64),
+        ColType::Double => Value::Double((t.pick(17) as i64 - 8) as f64 * 0.25),
+        ColType::Str => Value::Str(["a", "", "ab", "b", "B", "a%", "é"][t.pick(7)].to_string()),
+        ColType::Date => Value::Date(10957 + t.pick(4) as i32 * 15),
+        ColType::Bool => Value::Bool(t.pick(2) == 1),
+    })
+}
+
+const CMP: [BinOp; 6] = [BinOp::Eq, BinOp::Lt, BinOp::Ne, BinOp::Le, BinOp::Gt, BinOp::Ge];
+
+/// one relation in scope: alias + its table
+#[derive(Clone)]
+struct RelIn<'a> {
+    alias: String,
+    t: &'a Table,
+}
+
+fn col(r: &RelIn, name: &str) -> Expr {
+    Expr::qcol(&r.alias, name)
+}
+
+/// single-side predicate over relation `r`
+fn side_pred(t: &mut Tape, r: &RelIn) -> Expr {
+    match t.pick(4) {
+        0 | 1 => Expr::bin(col(r, "p"), CMP[t.pick(6)], lit(t, ColType::Int)),
+        2 => Expr::IsNull { e: Box::new(col(r, ["p", "q", "k1"][t.pick(3)])), neg: t.chance(50) },
+        _ => {
+            let qty = r.t.cols.iter().find(|c| c.name == "q").map(|c| c.ty).unwrap_or(ColType::Int);
+            if qty == ColType::Bool {
+                col(r, "q")
+            } else {
+                let lt = if qty == ColType::Int32 { ColType::Int } else { qty };
+                Expr::bin(col(r, "q"), CMP[t.pick(6)], lit(t, lt))
+            }
+        }
+    }
+}
+
+/// predicate over both sides
+fn both_pred(t: &mut Tape, l: &RelIn, r: &RelIn) -> Expr {
+    match t.pick(4) {
+        0 | 1 => Expr::bin(col(l, "p"), CMP[t.pick(6)], col(r, "p")),
+        2 => Expr::bin(Expr::bin(col(l, "p"), BinOp::Add, col(r, "p")), CMP[t.pick(6)], Expr::int(t.pick(8) as i64)),
+        // a disjunction of two single-side predicates: true for a pair when either side qualifies
+        _ => {
+            let a = side_pred(t, l);
+            let b = side_pred(t, r);
+            Expr::bin(a, BinOp::Or, b)
+        }
+    }
+}
+
+struct Built {
+    from: From,
+    /// relations visible after the join (semi/anti hide their right side)
+    visible: Vec<usize>,
+}
+
+/// ON condition between `l` (one of the relations visible on the left) and `r`
+#[allow(clippy::too_many_arguments)]
+fn on_cond(t: &mut Tape, nkeys: usize, l: &RelIn, r: &RelIn, feats: &mut Vec<String>, residual_pct: u32) -> Expr {
+    let mut conj: Vec<Expr> = vec![];
+    let no_equi = t.chance(5);
+    if !no_equi {
+        let m = 1 + t.pick(nkeys);
+        for k in 0..m {
+            let name = format!("k{}", k + 1);
+            // mostly the same-named key; sometimes another key column of the same type
+            let mut rname = name.clone();
+            if nkeys >= 2 && t.chance(15) {
+                let other = format!("k{}", 1 + t.pick(nkeys));
+                let ty = |rel: &RelIn, n: &str| rel.t.cols.iter().find(|c| c.name == n).map(|c| c.ty);
+                if ty(r, &other) == ty(l, &name) {
+                    rname = other;
+                    feats.push("equi_diff_names".into());
+                }
+            }
+            let (a, b) = (col(l, &name), col(r, &rname));
+            conj.push(if t.chance(30) { Expr::eq(b, a) } else { Expr::eq(a, b) });
+        }
+        feats.push(format!("equi_keys:{}", m));
+    } else {
+        feats.push("no_equi".into());
+    }
+    if no_equi || t.chance(residual_pct) {
+        let (e, f) = match t.pick(10) {
+            0..=2 => (side_pred(t, l), "residual_left"),
+            3..=5 => (side_pred(t, r), "residual_right"),
+            6 if !no_equi => (Expr::Lit(Value::Bool(t.chance(50))), "residual_const"),
+            _ => (both_pred(t, l, r), "residual_both"),
+        };
+        feats.push(f.into());
+        feats.push("join_residual".into());
+        conj.push(e);
+    }
+    // random position of the residual among the equalities
+    if conj.len() > 1 && t.chance(30) {
+        let last = conj.pop().unwrap();
+        conj.insert(0, last);
+    }
+    conj.into_iter().reduce(Expr::and).unwrap()
+}
+
+const KINDS: [JoinKind; 8] = [JoinKind::Inner, JoinKind::Left, JoinKind::Right, JoinKind::Full, JoinKind::Semi, JoinKind::Anti, JoinKind::Left, JoinKind::Cross];
+
+fn kind_feat(k: JoinKind) -> &'static str {
+    match k {
+        JoinKind::Inner => "join_inner",
+        JoinKind::Left => "join_left",
+        JoinKind::Right => "join_right",
+        JoinKind::Full => "join_full",
+        JoinKind::Cross => "join_cross",
+        JoinKind::Semi => "join_semi",
+        JoinKind::Anti => "join_anti",
+    }
+}
+
+fn build(tables: Vec<Table>, tape: Vec<u16>, cuts: Vec<Vec<usize>>, layouts: Vec<ParquetLayout>) -> JoinCase {
+    let mut t = Tape::new(tape);
+    let n = tables.len();
+    let nkeys = tables[0].cols.iter().filter(|c| c.name.starts_with('k')).count();
+    let rels: Vec<RelIn> = (0..n).map(|i| RelIn { alias: format!("t{}", i + 1), t: &tables[i] }).collect();
+    let base = |i: usize| From::Table { name: tables[i].name.clone(), alias: Some(format!("t{}", i + 1)) };
+    let mut feats: Vec<String> = vec![];
+    let mut where_parts: Vec<Expr> = vec![];
+
+    let residual_pct = 55;
+    let mut join = |t: &mut Tape, l: Built, r: Built, feats: &mut Vec<String>, where_parts: &mut Vec<Expr>| -> Built {
+        let kind = KINDS[t.pick(KINDS.len())];
+        // the relations the ON may mention
+        let li = l.visible[t.pick(l.visible.len())];
+        let ri = r.visible[t.pick(r.visible.len())];
+        if kind == JoinKind::Cross {
+            feats.push(kind_feat(kind).into());
+            // sometimes a WHERE equality instead of ON (comma-join style)
+            if t.chance(40) {
+                feats.push("where_equi".into());
+                where_parts.push(Expr::eq(col(&rels[li], "k1"), col(&rels[ri], "k1")));
+            }
+            let mut visible = l.visible.clone();
+            visible.extend(r.visible.iter().cloned());
+            return Built { from: From::Join { l: Box::new(l.from), r: Box::new(r.from), kind, on: None }, visible };
+        }
+        feats.push(kind_feat(kind).into());
+        let on = on_cond(t, nkeys, &rels[li], &rels[ri], feats, residual_pct);
+        let mut visible = l.visible.clone();
+        if !matches!(kind, JoinKind::Semi | JoinKind::Anti) {
+            visible.extend(r.visible.iter().cloned());
+        }
+        Built { from: From::Join { l: Box::new(l.from), r: Box::new(r.from), kind, on: Some(on) }, visible }
+    };
+
+    let leaf = |i: usize| Built { from: base(i), visible: vec![i] };
+    let built = if n == 2 {
+        join(&mut t, leaf(0), leaf(1), &mut feats, &mut where_parts)
+    } else if t.chance(65) {
+        feats.push("shape_left_deep".into());
+        let a = join(&mut t, leaf(0), leaf(1), &mut feats, &mut where_parts);
+        join(&mut t, a, leaf(2), &mut feats, &mut where_parts)
+    } else {
+        feats.push("shape_right_nested".into());
+        let b = join(&mut t, leaf(1), leaf(2), &mut feats, &mut where_parts);
+        join(&mut t, leaf(0), b, &mut feats, &mut where_parts)
+    };
+    drop(join);
+
+    // WHERE over visible relations
+    if t.chance(30) {
+        feats.push("where".into());
+        let vi = built.visible[t.pick(built.visible.len())];
+        where_parts.push(side_pred(&mut t, &rels[vi]));
+    }
+    // select list: all visible columns, or a random non-empty subset (join-output pruning)
+    let mut all: Vec<Expr> = vec![];
+    for &vi in &built.visible {
+        for c in &tables[vi].cols {
+            all.push(col(&rels[vi], &c.name));
+        }
+    }
+    let subset = t.chance(40);
+    let mut items: Vec<Item> = vec![];
+    for e in all.iter() {
+        if !subset || t.chance(45) {
+            items.push(Item::Expr(e.clone(), Some(format!("c{}", items.len() + 1))));
+        }
+    }
+    if items.is_empty() {
+        items.push(Item::Expr(all[t.pick(all.len())].clone(), Some("c1".into())));
+    }
+    if subset {
+        feats.push("subset_items".into());
+    }
+    let mixed = tables.iter().any(|tb| tb.cols.iter().any(|c| c.name.starts_with('k') && c.ty != tables[0].cols.iter().find(|d| d.name == c.name).unwrap().ty));
+    if mixed {
+        feats.push("mixed_width_keys".into());
+    }
+    let sel = Select { distinct: false, items, from: vec![built.from], where_: where_parts.into_iter().reduce(Expr::and), group: Group::None, having: None };
+    // engine configurations
+    let spill = [1usize, 1, 64, 256][t.pick(4)];
+    let mut cfgs = vec![EngineCfg::mem("mem"), EngineCfg::mem("spill").limit(spill), EngineCfg::mem("parquet").parquet(layouts.clone())];
+    // the forced streaming-scan gate is a process-global switch (runs exclusively): 1 case in 3
+    if t.chance(33) {
+        cfgs.push(EngineCfg::mem("parquet_big").parquet(layouts).big());
+    }
+    JoinCase { sql_case: SqlCase { tables, query: Query::select(sel), cuts, features: feats }, cfgs }
+}
+
+/// The metamorphic variant: exchange the inputs of the top-most join when that
+/// preserves the answer (INNER/FULL/CROSS: swap; LEFT↔RIGHT). The select list
+/// names its columns explicitly, so the expected rows are identical.
+fn swapped(q: &Query) -> Option<Query> {
+    let SetExpr::Select(sel) = &q.body else { return None };
+    let From::Join { l, r, kind, on } = sel.from.first()? else { return None };
+    let k2 = match kind {
+        JoinKind::Inner | JoinKind::Full | JoinKind::Cross => *kind,
+        JoinKind::Left => JoinKind::Right,
+        JoinKind::Right => JoinKind::Left,
+        JoinKind::Semi | JoinKind::Anti => return None,
+    };
+    let mut s2 = (**sel).clone();
+    s2.from = vec![From::Join { l: r.clone(), r: l.clone(), kind: k2, on: on.clone() }];
+    Some(Query::select(s2))
+}
+
+// ---------------------------------------------------------------------------
+// non-triviality (all through the reference evaluator)
+// ---------------------------------------------------------------------------
+
+fn count(db_tables: &[Table], from: From, where_: Option<Expr>) -> Option<i64> {
+    let q = Query::select(Select { distinct: false, items: vec![Item::Expr(Expr::count_star(), Some("n".into()))], from: vec![from], where_, group: Group::None, having: None });
+    match Db::new(db_tables).run(&q).ok()?.rows.first()?.first()? {
+        Value::Int(i) => Some(*i),
+        _ => None,
+    }
+}
+
+fn split_on(on: &Expr, equi: &mut Vec<Expr>, other: &mut Vec<Expr>) {
+    match on {
+        Expr::Bin(a, BinOp::And, b) => {
+            split_on(a, equi, other);
+            split_on(b, equi, other);
+        }
+        Expr::Bin(a, BinOp::Eq, b) if matches!(**a, Expr::Col { .. }) && matches!(**b, Expr::Col { .. }) => equi.push(on.clone()),
+        _ => other.push(on.clone()),
+    }
+}
+
+struct Nt {
+    unmatched_preserved: bool,
+    residual_rejects: bool,
+}
+
+/// facts about one join node of the statement
+fn join_facts(tables: &[Table], f: &From, out: &mut Vec<Nt>) {
+    if let From::Join { l, r, kind, on } = f {
+        join_facts(tables, l, out);
+        join_facts(tables, r, out);
+        let Some(on) = on else { return };
+        let anti = |a: &From, b: &From| count(tables, From::Join { l: Box::new(a.clone()), r: Box::new(b.clone()), kind: JoinKind::Anti, on: Some(on.clone()) }, None).unwrap_or(0) > 0;
+        let unmatched_preserved = match kind {
+            JoinKind::Left | JoinKind::Anti | JoinKind::Semi => anti(l, r),
+            JoinKind::Right => anti(r, l),
+            _ => anti(l, r) || anti(r, l),
+        };
+        let (mut equi, mut other) = (vec![], vec![]);
+        split_on(on, &mut equi, &mut other);
+        let residual_rejects = if equi.is_empty() || other.is_empty() {
+            false
+        } else {
+            let inner = |cond: Expr| count(tables, From::Join { l: l.clone(), r: r.clone(), kind: JoinKind::Inner, on: Some(cond) }, None).unwrap_or(0);
+            inner(equi.into_iter().reduce(Expr::and).unwrap()) > inner(on.clone())
+        };
+        out.push(Nt { unmatched_preserved, residual_rejects });
+    }
+}
+
+fn null_key(tables: &[Table]) -> bool {
+    tables.iter().any(|t| t.cols.iter().enumerate().any(|(i, c)| c.name.starts_with('k') && t.rows.iter().any(|r| r[i].is_null())))
+}
+
+// ---------------------------------------------------------------------------
+// known findings
+// ---------------------------------------------------------------------------
+
+pub const KF_SEMI_FILTER: &str = "join-semi-anti-on-filter";
+pub const KF_EMPTY_BUILD: &str = "join-outer-empty-build-side";
+pub const KF_SPILL_KEY: &str = "join-spill-date-or-dictionary-key";
+pub const KF_REORDER: &str = "join-reorder-loses-on-condition";
+pub const KF_DICT_KEY: &str = "join-key-dictionary-string";
+
+fn for_each_join<'a>(f: &'a From, g: &mut dyn FnMut(&'a From, &'a From, JoinKind, Option<&'a Expr>)) {
+    if let From::Join { l, r, kind, on } = f {
+        for_each_join(l, g);
+        for_each_join(r, g);
+        g(l, r, *kind, on.as_ref());
+    }
+}
+
+fn top_from(c: &SqlCase) -> Option<&From> {
+    match &c.query.body {
+        SetExpr::Select(s) => s.from.first(),
+        _ => None,
+    }
+}
+
+/// column type of `alias.name` (aliases are t1..t3 over tables[0..3])
+fn col_type(c: &SqlCase, e: &Expr) -> Option<ColType> {
+    let Expr::Col { rel: Some(a), name } = e else { return None };
+    let idx: usize = a.trim_start_matches('t').parse::<usize>().ok()?.checked_sub(1)?;
+    c.tables.get(idx)?.cols.iter().find(|x| &x.name == name).map(|x| x.ty)
+}
+
+/// Signature predicates of the open findings (statement shape + data / configuration condition).
+fn classify(c: &SqlCase, _ev: &Ev, reference: &crate::refsql::RefAnswer, cfg: &EngineCfg, out: &RunOut, _msg: &str) -> Option<&'static str> {
+    let from = top_from(c)?;
+    let got = out.rows.as_ref().ok()?;
+    let mut semi_anti_filter = false;
+    let mut outer = false;
+    let mut date_key = false;
+    let mut inner_over_non_inner = false;
+    let mut str_key_over_join = false;
+    let mut njoins = 0;
+    for_each_join(from, &mut |l, r, kind, on| {
+        njoins += 1;
+        let (mut equi, mut other) = (vec![], vec![]);
+        if let Some(on) = on {
+            split_on(on, &mut equi, &mut other);
+        }
+        if matches!(kind, JoinKind::Semi | JoinKind::Anti) && !other.is_empty() {
+            semi_anti_filter = true;
+        }
+        if matches!(kind, JoinKind::Left | JoinKind::Right | JoinKind::Full) {
+            // an input that hands the join NO batch: an empty Parquet table, or a join whose result is empty
+            let no_batch = |f: &From| match f {
+                From::Table { name, .. } => cfg.parquet.is_some() && c.tables.iter().any(|t| &t.name == name && t.rows.is_empty()),
+                j => count(&c.tables, j.clone(), None) == Some(0),
+            };
+            if no_batch(l) || no_batch(r) {
+                outer = true;
+            }
+        }
+        let key_types: Vec<ColType> = equi
+            .iter()
+            .flat_map(|e| match e {
+                Expr::Bin(a, _, b) => vec![col_type(c, a), col_type(c, b)],
+                _ => vec![],
+            })
+            .flatten()
+            .collect();
+        if key_types.contains(&ColType::Date) {
+            date_key = true;
+        }
+        let child_join = |f: &From| matches!(f, From::Join { .. });
+        let non_inner_child = |f: &From| matches!(f, From::Join { kind, .. } if !matches!(kind, JoinKind::Inner | JoinKind::Cross));
+        if matches!(kind, JoinKind::Inner | JoinKind::Cross) && (non_inner_child(l) || non_inner_child(r)) {
+            inner_over_non_inner = true;
+        }
+        if (child_join(l) || child_join(r)) && key_types.contains(&ColType::Str) {
+            str_key_over_join = true;
+        }
+    });
+    // where-equalities of comma/cross joins become join keys too
+    if let SetExpr::Select(s) = &c.query.body {
+        if let Some(w) = &s.where_ {
+            let (mut equi, mut other) = (vec![], vec![]);
+            split_on(w, &mut equi, &mut other);
+            for e in &equi {
+                if let Expr::Bin(a, _, b) = e {
+                    let tys = [col_type(c, a), col_type(c, b)];
+                    if tys.contains(&Some(ColType::Date)) {
+                        date_key = true;
+                    }
+                    if njoins >= 2 && tys.contains(&Some(ColType::Str)) {
+                        str_key_over_join = true;
+                    }
+                }
+            }
+        }
+    }
+    // (1) Semi/Anti join with a non-equi ON conjunct: candidates are looked up in a hash table that is
+    //     never built (small probes), marked once per probe row, or compared ignoring NULLs (large probes)
+    if semi_anti_filter {
+        return Some(KF_SEMI_FILTER);
+    }
+    // (2) outer join one of whose inputs yields no batch at all (empty Parquet table, or an upstream join
+    //     with an empty result): the build side has nothing to gather the NULL extension from
+    if outer {
+        return Some(KF_EMPTY_BUILD);
+    }
+    // (3) spilled (partitioned) inner join: DATE keys and dictionary-encoded string keys read as NULL
+    if cfg.mem_limit.is_some() && (date_key || str_key_over_join) && got.len() < reference.rows.len() {
+        return Some(KF_SPILL_KEY);
+    }
+    // (4) INNER/CROSS join directly above an outer/semi/anti join: JoinReorder cannot resolve the
+    //     qualified columns of the opaque sub-plan and drops the ON equalities → extra rows
+    if njoins >= 2 && inner_over_non_inner && got.len() > reference.rows.len() {
+        return Some(KF_REORDER);
+    }
+    // (5) a join keyed on a VARCHAR column that comes out of another join (dictionary-encoded by the
+    //     small-build gather): hashing/equality do not recognise the encoding → no key ever matches
+    if njoins >= 2 && str_key_over_join {
+        return Some(KF_DICT_KEY);
+    }
+    None
+}
+
+pub struct JoinCheck {
+    name: &'static str,
+    ntables: usize,
+    quick: u32,
+    thorough: u32,
+}
+
+impl Check for JoinCheck {
+    type Case = JoinCase;
+    fn name(&self) -> &'static str {
+        self.name
+    }
+    fn rule(&self) -> &'static str {
+        "at least three configurations answered, and for some join of the statement: a row of its preserved side (either side for inner/full/cross) has no partner, a key column holds a NULL, and the residual ON predicate rejects at least one pair whose equi-keys match"
+    }
+    fn cases(&self, tier: Tier) -> u32 {
+        tier.pick(self.quick, self.thorough)
+    }
+    fn max_shrink_iters(&self) -> u32 {
+        1500
+    }
+    fn strategy(&self, _tier: Tier) -> BoxedStrategy<JoinCase> {
+        let n = self.ntables;
+        (
+            tables_strategy(n),
+            proptest::collection::vec(any::<u16>(), 0..80),
+            proptest::collection::vec(proptest::collection::vec(0usize..=40, 0..3), n),
+            proptest::collection::vec(parquet_layout_strategy(40), n),
+        )
+            .prop_map(|(tables, tape, cuts, layouts)| build(tables, tape, cuts, layouts))
+            .boxed()
+    }
+    fn test(&self, case: &JoinCase, obs: &mut Obs) -> Verdict {
+        let c = &case.sql_case;
+        let out = judge_multi(c, &case.cfgs, obs, 1e-9, classify, false);
+        let Some(reference) = &out.reference else { return out.verdict };
+        let mut verdict = out.verdict.clone();
+        let mut answered = out.answered();
+        // metamorphic variant, in-memory
+        if let Some(sq) = swapped(&c.query) {
+            let sc = SqlCase { tables: c.tables.clone(), query: sq, cuts: c.cuts.clone(), features: c.features.clone() };
+            let sql = sc.query.sql();
+            let cfg = EngineCfg::mem("swapped");
+            let run = run_cfg(&sc, &cfg, &sql, false);
+            match &run.rows {
+                Ok(got) => {
+                    answered += 1;
+                    obs.label("engine_ok[swapped]");
+                    if let Err(msg) = crate::refsql::compare_answer(reference, got, 1e-9) {
+                        let full = format!("[swapped statement] {}\n sql: {}\n original: {}\n tables: {}", msg, sql, c.query.sql(), crate::sqlcheck::fmt_tables(&c.tables));
+                        match classify(&sc, &out.events, reference, &cfg, &run, &msg) {
+                            Some(id) if !matches!(verdict, Verdict::Fail(_)) => verdict = Verdict::Known { id: id.into(), msg: full },
+                            Some(_) => {}
+                            None => {
+                                if !matches!(verdict, Verdict::Fail(_)) {
+                                    verdict = Verdict::Fail(full)
+                                }
+                            }
+                        }
+                    }
+                }
+                Err(e) => obs.label(format!("engine_error[swapped]:{}", crate::sqlcheck::short_err(e))),
+            }
+        }
+        // non-triviality
+        let mut facts = vec![];
+        if let SetExpr::Select(sel) = &c.query.body {
+            for f in &sel.from {
+                join_facts(&c.tables, f, &mut facts);
+            }
+        }
+        let nk = null_key(&c.tables);
+        let un = facts.iter().any(|f| f.unmatched_preserved);
+        let rr = facts.iter().any(|f| f.residual_rejects);
+        if nk {
+            obs.label("null_key");
+        }
+        if un {
+            obs.label("unmatched_preserved_row");
+        }
+        if rr {
+            obs.label("residual_rejects_matching_pair");
+        }
+        let (l, r) = (c.tables[0].rows.len(), c.tables[1].rows.len());
+        obs.label(if l > 2 * r { "size:left>2xright" } else if r > 2 * l { "size:right>2xleft" } else { "size:similar" });
+        if l == 0 || r == 0 {
+            obs.label("empty_side");
+        }
+        obs.nontrivial(answered >= 3 && nk && facts.iter().any(|f| f.unmatched_preserved && f.residual_rejects));
+        verdict
+    }
+}
 
 pub fn property() -> Property {
-    Property { id: "C22", level: "exploration", assumptions: &[], checks: vec![] }
+    Property {
+        id: "C22",
+        level: "exploration",
+        assumptions: &[
+            "the reference evaluator refsql implements the SQL join definitions by nested loops (cross-checked against SQLite for inner/left/cross; RIGHT/FULL/SEMI/ANTI follow the same code with the roles exchanged)",
+            "LEFT SEMI JOIN / LEFT ANTI JOIN are the engine's spelling of semi/anti joins (binder.rs maps JoinOperator::LeftSemi/LeftAnti); their output is the left input's columns",
+            "an engine error is an allowed outcome (the spilled hash join refuses non-inner joins and ON filters); a wrong answer is not",
+            "configurations that set the process-global verif_hooks::force_big switch run exclusively (RwLock), so every run is a function of (case, configuration)",
+        ],
+        checks: vec![
+            Box::new(JoinCheck { name: "join2", ntables: 2, quick: 1500, thorough: 80_000 }),
+            Box::new(JoinCheck { name: "join3", ntables: 3, quick: 1000, thorough: 50_000 }),
+        ],
+    }
 }
